@@ -172,6 +172,22 @@ def run_visit(root, refl, table, record=True, via=0):
     raised = ""
     result = None
     visitor = Scripted()
+    if via & 4:
+        # the same script spread over kind-specific and generic handlers: for some kinds only enter_<kind> is specific
+        # (leave stays generic), for others only leave_<kind>, for others both - every node is still entered and left
+        kinds = sorted({n.kind for n in refl.nodes})
+        krng = random.Random(len(refl.nodes) * 31 + len(table))
+        ns = {}
+        for k in kinds:
+            r = krng.random()
+            if r < 0.3:
+                ns["enter_" + k] = lambda self, *a: self.decide("enter", *a)
+            elif r < 0.6:
+                ns["leave_" + k] = lambda self, *a: self.decide("leave", *a)
+            elif r < 0.75:
+                ns["enter_" + k] = lambda self, *a: self.decide("enter", *a)
+                ns["leave_" + k] = lambda self, *a: self.decide("leave", *a)
+        visitor = type("ScriptedMixed", (Scripted,), ns)()
     if via & 2:
         global _TI_SCHEMA
         from graphql import build_schema
@@ -210,7 +226,7 @@ def _chunk(jobs):
         for trial in range(4):
             npts = rng.choice([0, 1, 1, 2, 2, 3])
             prog, table = make_program(rng, refl, npts)
-            via = rng.choice([0, 0, 1, 2, 3])
+            via = rng.choice([0, 0, 1, 2, 3, 4, 4, 5, 6])
             log, result, raised = run_visit(root, refl, table, via=via)
             broke = any(table.get((e["ph"], e["id"]), ("",))[0] == "break" for e in log[-1:])
             if raised:
